@@ -155,5 +155,6 @@ pub fn def() -> PropDef {
         assumptions: &["gram = 1-letter word start, 2-letter word start, every 3-letter window of a normalised word"],
         spaces: vec![Space { name: "index", decode, plan: |t| Plan::Random(t.n(120_000, 2_000_000)) }],
         differential: false,
+        floors: &[("prepares", 0.8)],
     }
 }
